@@ -18,6 +18,9 @@ REPO = os.environ.get('VERIF_REPO', '/repo')
 SPEC = os.path.join(VERIF, 'spec')
 TLA_CP = '/opt/veriftools/tla/tla2tools.jar:/opt/veriftools/tla/CommunityModules-deps.jar'
 NCPU = min(16, os.cpu_count() or 4)
+# experiments against a scratch copy of the repository (seeded changes) write everything under OUT, not /verif
+OUT = os.environ.get('VERIF_OUT', VERIF)
+SANDBOX = os.environ.get('VERIF_OUT') is not None
 
 
 class MachineryError(Exception):
@@ -187,7 +190,7 @@ class Ctx:
   def __init__(self, pid, tier, seed):
     self.pid, self.tier, self.seed = pid, tier, seed
     self.quick = (tier == 'quick')
-    self.work = os.path.join(VERIF, '.work', pid)
+    self.work = os.path.join(OUT, '.work', pid)
     shutil.rmtree(self.work, ignore_errors=True)
     os.makedirs(self.work, exist_ok=True)
     self.t0 = time.time()
@@ -254,7 +257,7 @@ class Ctx:
   # -- finishing
   def finish(self, level='model_checking'):
     pid = self.pid
-    os.makedirs(os.path.join(VERIF, 'evidence'), exist_ok=True)
+    os.makedirs(os.path.join(OUT, 'evidence'), exist_ok=True)
     new = []
     known_hits = {}
     for v in self.violations:
@@ -278,7 +281,7 @@ class Ctx:
       body = dict(property=pid, clause=v['clause'], signature=v['signature'], what=v['what'],
                   recipe=v['recipe'], trace=v['trace'], tier=self.tier, seed=self.seed)
       blob = json.dumps(body, sort_keys=True, default=str)
-      d = os.path.join(VERIF, 'replays', pid)
+      d = os.path.join(OUT, 'replays', pid)
       os.makedirs(d, exist_ok=True)
       path = os.path.join(d, hashlib.sha1(blob.encode()).hexdigest()[:16] + '.json')
       with open(path, 'w') as f:
@@ -299,7 +302,7 @@ class Ctx:
     ev = dict(property_id=pid, tier=self.tier, seed=self.seed, level=level, coverage=cov,
               assumptions=self.assumptions, wall_s=round(time.time() - self.t0, 2),
               violations=len(new))
-    with open(os.path.join(VERIF, 'evidence', pid + '.json'), 'w') as f:
+    with open(os.path.join(OUT, 'evidence', pid + '.json'), 'w') as f:
       json.dump(ev, f, indent=1, default=str)
     print('%s %s: states=%d transitions=%d traces=%d evaluations=%d distinct=%d known=%d new_violations=%d wall=%.1fs'
           % (pid, self.tier, self.states, self.transitions, self.traces_validated, self.evaluations,
@@ -400,7 +403,7 @@ def standard_replay(modname, pid, module, cfg, path, frozen, signature_of=None):
   import importlib
   body = json.load(open(path))
   mod = importlib.import_module(modname)
-  work = os.path.join(VERIF, '.work', pid + '_replay')
+  work = os.path.join(OUT, '.work', pid + '_replay')
   shutil.rmtree(work, ignore_errors=True)
   if frozen:
     tr = body['trace']
